@@ -281,10 +281,16 @@ def evalRange (s : S) (a b : Nat) (res : Option (Nat × Nat × String)) : IO Uni
       -- (C13_fragment_replacement_is_certified)?  Then the certificate cannot fail.
       let len := s.src.utf8ByteSize
       let tr := trimRange s.src.toList (min a len) (min b len)
-      let notMath := match cover tr.1 (min tr.2 len) t 0 .markup with
-        | some (_, _, mode) => mode != LMode.math
-        | none => false
-      let frag := isExpr node && inFrag node && notMath
+      let cmode := match cover tr.1 (min tr.2 len) t 0 .markup with
+        | some (_, _, mode) => some mode
+        | none => none
+      -- C13_fragment_replacement_is_certified (non-math cover) / C13_fragment_math_replacement_is_certified (math cover)
+      -- … / C13_fragment_markup_replacement_is_certified (a markup body)
+      let frag := (match cmode with
+        | some mode =>
+          if isExpr node then (if mode == LMode.math then inFragM node else inFrag node)
+          else node.kind == Kind.markup && mode != LMode.math && inFrag node
+        | none => false)
       (if c then "rcert=ok" else "rcert=viol") ++ (if frag then (if c then " rm=in" else " rm=viol") else " rm=out")
     | _ => "rcert=na"
   match m, res with
